@@ -88,29 +88,33 @@ func (o Op) String() string {
 // Conn is a scripted net.Conn.  It is not safe for free-running concurrent use; under
 // the controlled scheduler exactly one thread runs at a time.
 type Conn struct {
-	In        []byte // bytes the peer "sent"
-	inPos     int
-	Chunk     func(c *Conn, want, avail int) int // how many bytes the next Read returns (nil: all that fit)
-	Decide    func(c *Conn, kind OpKind, index int) Fault
-	AtEnd     Fault // what a Read reports when In is exhausted: FailEOF (default), FailErr, FailTimeout
-	Ops       []Op
-	Out       []byte   // all bytes accepted by Write, concatenated
-	Writes    [][]byte // per Write call
-	Closed    int
-	WDL       time.Time // effective write deadline
-	RDL       time.Time
-	Failed    bool                                // a write fault has been injected
-	Hook      func(c *Conn, phase string, op *Op) // scheduler hook (phase "pre"/"post")
-	Name      string
-	OnWrite   func(c *Conn, p []byte) // called for every accepted write (before logging)
-	Extra     func(c *Conn) []byte    // called when In is exhausted: more input (e.g. a responder)
-	LastWith  Fault                   // FailDataEOF / FailDataErr / FailTimeout: the Read that hands out the last byte of In also reports this
-	FailStart int                     // offset at which the failing Read started (-1: none yet)
-	NoReadLog bool                    // do not log successful Reads (bulk read-side use)
+	In          []byte // bytes the peer "sent"
+	inPos       int
+	Chunk       func(c *Conn, want, avail int) int // how many bytes the next Read returns (nil: all that fit)
+	Decide      func(c *Conn, kind OpKind, index int) Fault
+	AtEnd       Fault // what a Read reports when In is exhausted: FailEOF (default), FailErr, FailTimeout
+	Ops         []Op
+	Out         []byte   // all bytes accepted by Write, concatenated
+	Writes      [][]byte // per Write call
+	Closed      int
+	WDL         time.Time // effective write deadline
+	RDL         time.Time
+	Failed      bool                                // a write fault has been injected
+	Hook        func(c *Conn, phase string, op *Op) // scheduler hook (phase "pre"/"post")
+	Name        string
+	OnWrite     func(c *Conn, p []byte) // called for every accepted write (before logging)
+	Extra       func(c *Conn) []byte    // called when In is exhausted: more input (e.g. a responder)
+	LastWith    Fault                   // FailDataEOF / FailDataErr / FailTimeout: the Read that hands out the last byte of In also reports this
+	FailStart   int                     // offset at which the failing Read started (-1: none yet)
+	OneShotAt   int                     // >= 0: a single fault is injected when the read position reaches this offset, then the stream continues
+	OneShotKind Fault                   // FailErr / FailTimeout / FailEOF (no data) or FailDataErr / FailDataEOF / FailTimeout+data (with the bytes before the offset)
+	OneShotData bool                    // deliver the bytes up to the offset together with the error
+	oneShotDone bool
+	NoReadLog   bool // do not log successful Reads (bulk read-side use)
 }
 
 // NewConn returns a connection that will deliver in.
-func NewConn(in []byte) *Conn { return &Conn{In: in, AtEnd: FailEOF, FailStart: -1} }
+func NewConn(in []byte) *Conn { return &Conn{In: in, AtEnd: FailEOF, FailStart: -1, OneShotAt: -1} }
 
 //go:norace
 func (c *Conn) decide(kind OpKind) (Fault, int) {
@@ -164,6 +168,15 @@ func (c *Conn) Read(p []byte) (int, error) {
 		c.log(Op{Kind: OpRead, Index: idx, N: len(p), Fault: f, Err: e})
 		return 0, e
 	}
+	if c.OneShotAt >= 0 && !c.oneShotDone && c.inPos == c.OneShotAt && (!c.OneShotData || c.inPos == 0) {
+		c.oneShotDone = true
+		if c.FailStart < 0 {
+			c.FailStart = c.inPos
+		}
+		e := faultErr(c.OneShotKind)
+		c.log(Op{Kind: OpRead, Index: idx, N: len(p), Fault: c.OneShotKind, Err: e})
+		return 0, e
+	}
 	avail := len(c.In) - c.inPos
 	if avail == 0 && c.Extra != nil {
 		if more := c.Extra(c); len(more) > 0 {
@@ -192,8 +205,22 @@ func (c *Conn) Read(p []byte) (int, error) {
 			n = k
 		}
 	}
+	oneShotErr := error(nil)
+	if c.OneShotAt >= 0 && !c.oneShotDone && c.inPos < c.OneShotAt && c.inPos+n >= c.OneShotAt {
+		n = c.OneShotAt - c.inPos // never read across the fault position
+		if c.OneShotData {
+			c.oneShotDone = true
+			c.FailStart = c.inPos
+			oneShotErr = faultErr(c.OneShotKind)
+		}
+	}
 	copy(p, c.In[c.inPos:c.inPos+n])
 	data := c.In[c.inPos : c.inPos+n]
+	if oneShotErr != nil {
+		c.inPos += n
+		c.log(Op{Kind: OpRead, Index: idx, N: len(p), Data: data, Fault: c.OneShotKind, Err: oneShotErr})
+		return n, oneShotErr
+	}
 	if c.inPos+n == len(c.In) && c.LastWith != OK && f == OK {
 		f = c.LastWith
 		c.FailStart = c.inPos
